@@ -133,23 +133,42 @@ fn gen_wide(s: &mut Src) -> (Wm, Late, Vec<u64>) {
     (wm, late, ts)
 }
 
+/// Sub-millisecond rests (microseconds, 1..999) for the allowed delay and the allowed lateness, or (0, 0).
+fn sub_ms_rest(ts: &[u64]) -> (u64, u64) {
+    let h = ts.iter().fold(ts.len() as u64, |a, &t| a.wrapping_mul(31).wrapping_add(t));
+    if h % 3 != 0 {
+        return (0, 0);
+    }
+    let h = h / 3;
+    (if h % 4 == 3 { 0 } else { 1 + (h / 4) % 999 }, if h % 5 == 4 { 0 } else { 1 + (h / 5) % 999 })
+}
+
 pub fn run(s: &mut Src, ctx: &mut Ctx) -> Verdict {
     let (wm, late, ts) = gen(s, ctx.exh);
     if probe_only() {
         return Verdict::Pass;
     }
     let idk = ID_MOD.with(|c| c.get());
-    ctx.describe(|| format!("watermark={:?} late={:?} timestamps={:?}{}", wm, late, ts, if idk > 0 { format!(" event ids repeat with period {}", idk) } else { String::new() }));
     if idk > 0 {
         ctx.label("repeated-event-ids");
     }
+    // The allowed delay and lateness are `Duration`s, timestamps are whole milliseconds. One case in three carries a
+    // sub-millisecond rest on both (a pure function of the timestamps, so saved cases keep decoding). The statement
+    // still fixes every answer: for whole t and m, `t < m - (D + r)` (0 < r < 1 ms) holds exactly when `t < m - D`,
+    // and `w - t <= L + r` exactly when `w - t <= L` -- the rest must change nothing that can be observed.
+    let (rest_d, rest_l) = sub_ms_rest(&ts);
+    let rest_txt = if rest_d + rest_l > 0 { format!(" sub-millisecond rest: delay +{} us, lateness +{} us", rest_d, rest_l) } else { String::new() };
+    ctx.describe(|| format!("watermark={:?} late={:?} timestamps={:?}{}{}", wm, late, ts, if idk > 0 { format!(" event ids repeat with period {}", idk) } else { String::new() }, rest_txt));
+    if rest_d + rest_l > 0 {
+        ctx.label("sub-millisecond-rest");
+    }
     let ws = match wm {
         Wm::Mono => WatermarkStrategy::MonotonicAscending,
-        Wm::Bounded(d) => WatermarkStrategy::BoundedOutOfOrder { max_delay: Duration::from_millis(d) },
+        Wm::Bounded(d) => WatermarkStrategy::BoundedOutOfOrder { max_delay: Duration::from_millis(d) + Duration::from_micros(rest_d) },
     };
     let ls = match late {
         Late::Drop => LateDataStrategy::Drop,
-        Late::Allowed(l) => LateDataStrategy::AllowedLateness { max_lateness: Duration::from_millis(l) },
+        Late::Allowed(l) => LateDataStrategy::AllowedLateness { max_lateness: Duration::from_millis(l) + Duration::from_micros(rest_l) },
         Late::Side => LateDataStrategy::SideOutput,
         Late::Recompute => LateDataStrategy::RecomputeWindows,
     };
@@ -417,14 +436,19 @@ pub fn run_components(s: &mut Src, ctx: &mut Ctx) -> Verdict {
         return Verdict::Pass;
     }
     let idk = ID_MOD.with(|c| c.get());
-    ctx.describe(|| format!("components watermark={:?} late={:?} steps (timestamp, drain-side-output-first) {:?}{}", wm, late, ts.iter().zip(drains.iter()).collect::<Vec<_>>(), if idk > 0 { format!(" event ids repeat with period {}", idk) } else { String::new() }));
+    let (rest_d, rest_l) = sub_ms_rest(&ts);
+    let rest_txt = if rest_d + rest_l > 0 { format!(" sub-millisecond rest: delay +{} us, lateness +{} us", rest_d, rest_l) } else { String::new() };
+    ctx.describe(|| format!("components watermark={:?} late={:?} steps (timestamp, drain-side-output-first) {:?}{}{}", wm, late, ts.iter().zip(drains.iter()).collect::<Vec<_>>(), if idk > 0 { format!(" event ids repeat with period {}", idk) } else { String::new() }, rest_txt));
+    if rest_d + rest_l > 0 {
+        ctx.label("sub-millisecond-rest");
+    }
     let ws = match wm {
         Wm::Mono => WatermarkStrategy::MonotonicAscending,
-        Wm::Bounded(d) => WatermarkStrategy::BoundedOutOfOrder { max_delay: Duration::from_millis(d) },
+        Wm::Bounded(d) => WatermarkStrategy::BoundedOutOfOrder { max_delay: Duration::from_millis(d) + Duration::from_micros(rest_d) },
     };
     let ls = match late {
         Late::Drop => LateDataStrategy::Drop,
-        Late::Allowed(l) => LateDataStrategy::AllowedLateness { max_lateness: Duration::from_millis(l) },
+        Late::Allowed(l) => LateDataStrategy::AllowedLateness { max_lateness: Duration::from_millis(l) + Duration::from_micros(rest_l) },
         Late::Side => LateDataStrategy::SideOutput,
         Late::Recompute => LateDataStrategy::RecomputeWindows,
     };
@@ -542,7 +566,7 @@ pub fn property() -> Property {
     Property {
         id: "C13",
         level: "exploration",
-        rule: "generated: timestamp sequences of length 0..12 over base+0..30 in any order x {BoundedOutOfOrder(0..10 ms), MonotonicAscending} x {Drop, AllowedLateness(0..10), SideOutput, RecomputeWindows}; one case in four instead takes delay D and lateness L from the whole millisecond range (non-round values from 1001 up to 2^44, minute/hour/day marks and their neighbours) with timestamps c1*D + c2*L + e (e in -1..1) placed on, just below and just above the boundaries the statement names; plus exhaustive enumeration of all sequences of length 4..6 (quick) / 4..8 (thorough) over a 6-value domain x 20 configurations (every prefix is judged, so shorter sequences are covered). Oracle: watermark/late model from the statement, compared after every add_event (watermark value, monotonicity, events, side output, stats, conservation, history). Non-trivial: at least one late event and a watermark advance after it; distinct by (configuration, sequence). Part `components`: WatermarkGenerator and LateDataHandler driven directly (offer = is_late ? handle_late_event : process_event, as add_event composes them) with clear_side_output drains between offers; judged after every step: process_event returns Some(new watermark) exactly when it moved, the decision is the one the strategy prescribes and carries the event, total_late / dropped / allowed count every late event offered so far (a drain un-counts nothing), side_output is the current buffer size and the buffer holds the late events routed there since the last drain, is_late answers t < watermark.",
+        rule: "generated: timestamp sequences of length 0..12 over base+0..30 in any order x {BoundedOutOfOrder(0..10 ms), MonotonicAscending} x {Drop, AllowedLateness(0..10), SideOutput, RecomputeWindows}; one case in four instead takes delay D and lateness L from the whole millisecond range (non-round values from 1001 up to 2^44, minute/hour/day marks and their neighbours) with timestamps c1*D + c2*L + e (e in -1..1) placed on, just below and just above the boundaries the statement names; one case in three carries a sub-millisecond rest (1..999 us) on the delay and the lateness, which for whole-millisecond timestamps must change nothing observable (t < m - (D+r) exactly when t < m - D); plus exhaustive enumeration of all sequences of length 4..6 (quick) / 4..8 (thorough) over a 6-value domain x 20 configurations (every prefix is judged, so shorter sequences are covered). Oracle: watermark/late model from the statement, compared after every add_event (watermark value, monotonicity, events, side output, stats, conservation, history). Non-trivial: at least one late event and a watermark advance after it; distinct by (configuration, sequence). Part `components`: WatermarkGenerator and LateDataHandler driven directly (offer = is_late ? handle_late_event : process_event, as add_event composes them) with clear_side_output drains between offers; judged after every step: process_event returns Some(new watermark) exactly when it moved, the decision is the one the strategy prescribes and carries the event, total_late / dropped / allowed count every late event offered so far (a drain un-counts nothing), side_output is the current buffer size and the buffer holds the late events routed there since the last drain, is_late answers t < watermark.",
         assumptions: vec!["The Periodic strategy reads the wall clock: its watermark values are not modelled; part `periodic` judges only what is stated relative to the watermark observed before each call (monotone, late iff below it, routing, statistics), with real sleeps past the interval in the generator but no clock in the oracle. Custom does nothing.".into()],
         parts: vec![
             Part { name: "random", run, quick: Budget::Random { cases: 4_000_000, bytes: 40 }, thorough: Budget::Random { cases: 60_000_000, bytes: 40 }, min_nontrivial_pct: 15 },
